@@ -15,6 +15,8 @@ pub mod c13;
 pub mod c14;
 pub mod c15;
 pub mod c17;
+#[cfg(feature = "crypto")]
+pub mod c19;
 pub mod c20;
 
 use crate::runner::PropertyDef;
@@ -37,9 +39,11 @@ pub fn lookup(id: &str) -> Option<PropertyDef> {
 		"C14" => c14::def(),
 		"C15" => c15::def(),
 		"C17" => c17::def(),
+		#[cfg(feature = "crypto")]
+		"C19" => c19::def(),
 		"C20" => c20::def(),
 		_ => return None,
 	})
 }
 
-pub const ALL: &[&str] = &["C01", "C02", "C03", "C04", "C05", "C06", "C07", "C08", "C09", "C11", "C12", "C13", "C14", "C15", "C17", "C20"];
+pub const ALL: &[&str] = &["C01", "C02", "C03", "C04", "C05", "C06", "C07", "C08", "C09", "C11", "C12", "C13", "C14", "C15", "C17", "C19", "C20"];
